@@ -12,6 +12,7 @@ import (
 	"errors"
 	"fmt"
 	"io"
+	"log/slog"
 	"math/big"
 	"math/rand"
 	"strings"
@@ -71,6 +72,9 @@ type c11In struct {
 	CtxDone   bool        `json:"ctx_done,omitempty"` // run with a cancelled context; the client honours it
 	AbiVals   []c11AbiVal `json:"abi_vals,omitempty"`
 	AbiData   string      `json:"abi_data,omitempty"` // abiunpack: the types of AbiVals, this data
+	// session: the operations run one after the other on ONE registry object (Kind, Reg of the
+	// parent; each step has its own op, account, answers and context flag)
+	Steps []c11In `json:"steps,omitempty"`
 }
 
 // ---- observation ------------------------------------------------------------------------------
@@ -96,6 +100,7 @@ type c11Obs struct {
 	Parsed *string      `json:"parsed,omitempty"`
 	Packed *string      `json:"packed,omitempty"`
 	Vals   *[]c11AbiVal `json:"vals,omitempty"`
+	Steps  []c11Obs     `json:"steps,omitempty"`
 }
 
 // ---- scripted evm client ----------------------------------------------------------------------
@@ -345,16 +350,38 @@ func (ev *c11Env) run(in c11In) (obs c11Obs) {
 	cl := &c11Client{in: in}
 	regAddr := common.BytesToAddress(c11Hex(in.Reg))
 	logger := util.NewTestLogger(io.Discard)
-	var r c11Registry
-	var prov registrycontract.Interface
-	var bid bidderregistrycontract.Interface
+	o := &c11Objects{cl: cl, logger: logger}
 	if in.Kind == 0 {
-		prov = registrycontract.New(regAddr, cl, logger)
-		r = c11Prov{prov}
+		o.prov = registrycontract.New(regAddr, cl, logger)
+		o.r = c11Prov{o.prov}
 	} else {
-		bid = bidderregistrycontract.New(regAddr, cl, logger)
-		r = c11Bid{bid}
+		o.bid = bidderregistrycontract.New(regAddr, cl, logger)
+		o.r = c11Bid{o.bid}
 	}
+	if in.Op == "session" {
+		// one object for the whole sequence; the client's script and recorder are per step
+		for _, st := range in.Steps {
+			st.Kind, st.Reg = in.Kind, in.Reg
+			cl.in, cl.ncall, cl.trace = st, 0, nil
+			obs.Steps = append(obs.Steps, ev.runOn(o, st))
+		}
+		return obs
+	}
+	return ev.runOn(o, in)
+}
+
+// the objects under test: one registry (provider or bidder flavour) over one scripted client
+type c11Objects struct {
+	cl     *c11Client
+	logger *slog.Logger
+	r      c11Registry
+	prov   registrycontract.Interface
+	bid    bidderregistrycontract.Interface
+}
+
+func (ev *c11Env) runOn(o *c11Objects, in c11In) (obs c11Obs) {
+	obs.Trace = []c11Eff{}
+	cl, r, prov, bid, logger := o.cl, o.r, o.prov, o.bid, o.logger
 	ctx, cancel := context.WithCancel(context.Background())
 	defer cancel()
 	if in.CtxDone {
@@ -563,7 +590,11 @@ func c11CoqTrace(tr []c11Eff) string {
 func (ev *c11Env) abiTable(in c11In, obs c11Obs) string {
 	var items []string
 	seen := map[string]bool{}
-	for _, e := range obs.Trace {
+	all := append([]c11Eff{}, obs.Trace...)
+	for _, st := range obs.Steps {
+		all = append(all, st.Trace...)
+	}
+	for _, e := range all {
 		d := c11Hex(e.Data)
 		if (e.K != "call" && e.K != "send") || len(d) < 4 {
 			continue
@@ -585,6 +616,23 @@ func (ev *c11Env) abiTable(in c11In, obs c11Obs) string {
 
 func (ev *c11Env) coq(id int, in c11In, obs c11Obs) string {
 	var op, res string
+	if in.Op == "session" {
+		items := make([]string, len(in.Steps))
+		for i, st := range in.Steps {
+			so, sr := c11CoqOpRes(st, obs.Steps[i])
+			items[i] = coqPair(so, coqPair(c11CoqTrace(obs.Steps[i].Trace), sr))
+		}
+		op, res = coqApp("OpSession", coqList(items)), "ObsNone"
+	} else {
+		op, res = c11CoqOpRes(in, obs)
+	}
+	return coqRecord("id", coqN(uint64(id)), "kind", coqN(uint64(in.Kind)),
+		"reg", coqBytes(common.BytesToAddress(c11Hex(in.Reg)).Bytes()),
+		"abi", ev.abiTable(in, obs), "op", op, "trace", c11CoqTrace(obs.Trace), "res", res)
+}
+
+// the operation with its effective answers, and the observed result, as Coq terms
+func c11CoqOpRes(in c11In, obs c11Obs) (op, res string) {
 	pick := func(i int) c11Ans {
 		if i < len(in.Calls) {
 			return in.Calls[i]
@@ -650,9 +698,7 @@ func (ev *c11Env) coq(id int, in c11In, obs c11Obs) string {
 			res = coqApp("ObsNum", "None")
 		}
 	}
-	return coqRecord("id", coqN(uint64(id)), "kind", coqN(uint64(in.Kind)),
-		"reg", coqBytes(common.BytesToAddress(c11Hex(in.Reg)).Bytes()),
-		"abi", ev.abiTable(in, obs), "op", op, "trace", c11CoqTrace(obs.Trace), "res", res)
+	return op, res
 }
 
 // ---- generators ------------------------------------------------------------------------------------------
@@ -894,6 +940,91 @@ func TestVerifC11(t *testing.T) {
 				}
 			}
 		}
+	}
+	// S. sessions: ONE registry object, several operations; the chain's answers change between
+	//    them (minimum raised / lowered, a read failing or malformed and recovering, stake moving)
+	big100, big150, big200 := big.NewInt(100), big.NewInt(150), big.NewInt(200)
+	okAns := func(v *big.Int) c11Ans { return c11Ans{Data: c11Word(v)} }
+	chk := func(min, stake c11Ans) c11In { return c11In{Op: "check", Calls: []c11Ans{min, stake}} }
+	getMin := func(a c11Ans) c11In { return c11In{Op: "getmin", Calls: []c11Ans{a}} }
+	getStake := func(a c11Ans) c11In { return c11In{Op: "getstake", Calls: []c11Ans{a}} }
+	scripted := [][]c11In{
+		{chk(okAns(big100), okAns(big150)), chk(okAns(big200), okAns(big150))},                                     // minimum raised
+		{chk(okAns(big200), okAns(big150)), chk(okAns(big100), okAns(big150))},                                     // minimum lowered
+		{chk(okAns(big100), okAns(big150)), chk(c11Ans{Err: 1}, okAns(big150)), chk(okAns(big100), okAns(big150))}, // read fails, recovers
+		{chk(okAns(big100), okAns(big150)), chk(c11Ans{Data: ""}, okAns(big150)), chk(c11Ans{Data: c11Word(big100)[:62]}, okAns(big150))},
+		{chk(c11Ans{Err: 1}, okAns(big150)), chk(okAns(big100), okAns(big150)), chk(okAns(big200), okAns(big150))},
+		{chk(c11Ans{Data: "00"}, okAns(big150)), chk(okAns(big200), okAns(big150)), chk(okAns(big150), okAns(big150))},
+		{getMin(okAns(big100)), chk(okAns(big200), okAns(big150))}, // a getter first
+		{getMin(okAns(big100)), getMin(okAns(big200)), getMin(c11Ans{Err: 1}), getMin(okAns(big100))},
+		{getStake(okAns(big150)), getStake(okAns(big100)), getStake(c11Ans{Data: "01"}), getStake(okAns(big200))},
+		{chk(okAns(big100), okAns(big150)), chk(okAns(big100), okAns(big.NewInt(99)))}, // stake withdrawn
+		{getStake(okAns(big150)), chk(okAns(big100), okAns(big.NewInt(99))), chk(okAns(big100), c11Ans{Err: 1})},
+		{chk(okAns(big100), okAns(big.NewInt(99))), chk(okAns(big100), okAns(big100)), chk(okAns(big100), c11Ans{Data: ""})},
+		{chk(okAns(big100), okAns(big150)), chk(okAns(new(big.Int).Sub(c11Two256, one)), okAns(big150)),
+			chk(okAns(big.NewInt(0)), okAns(big.NewInt(0))), chk(okAns(one), okAns(big.NewInt(0))), chk(okAns(big100), okAns(big150))},
+	}
+	for kind := 0; kind < 2; kind++ {
+		for _, steps := range scripted {
+			in := c11In{Kind: kind, Op: "session", Reg: c11RandHex(r, 20)}
+			acct := c11RandHex(r, 20)
+			for _, st := range steps {
+				st.Addr = acct
+				in.Steps = append(in.Steps, st)
+			}
+			run("session-scripted", in)
+		}
+	}
+	nsess := e.N / 2
+	for i := 0; i < nsess; i++ {
+		in := c11In{Kind: r.Intn(2), Op: "session", Reg: c11RandHex(r, 20)}
+		acct := c11RandHex(r, 20)
+		m, sv := c11RandValue(r), c11RandValue(r)
+		if r.Intn(2) == 0 {
+			sv = new(big.Int).Set(m) // start at the boundary
+		}
+		n := 2 + r.Intn(4)
+		for j := 0; j < n; j++ {
+			// move the chain: raise / lower the minimum or the stake by a little or a lot
+			move := func(v *big.Int) *big.Int {
+				var nv *big.Int
+				switch r.Intn(5) {
+				case 0:
+					nv = new(big.Int).Add(v, one)
+				case 1:
+					nv = new(big.Int).Sub(v, one)
+				case 2:
+					nv = c11RandValue(r)
+				default:
+					nv = new(big.Int).Set(v)
+				}
+				if nv.Sign() < 0 || nv.Cmp(c11Two256) >= 0 {
+					return v
+				}
+				return nv
+			}
+			m, sv = move(m), move(sv)
+			st := c11In{Addr: acct}
+			if r.Intn(4) == 0 {
+				st.Addr = c11RandHex(r, 20) // another account in between
+			}
+			switch r.Intn(8) {
+			case 0:
+				st.Op, st.Calls = "getmin", []c11Ans{c11RandAns(r, m)}
+			case 1:
+				st.Op, st.Calls = "getstake", []c11Ans{c11RandAns(r, sv)}
+			case 2:
+				st.Op = "register"
+				st.Amount = str(c11RandValue(r))
+				ws := c11Waits()
+				st.Send, st.Wait = c11Ans{Data: c11RandHex(r, 32)}, ws[r.Intn(len(ws))]
+			default:
+				st.Op, st.Calls = "check", []c11Ans{c11RandAns(r, m), c11RandAns(r, sv)}
+				st.CtxDone = r.Intn(25) == 0
+			}
+			in.Steps = append(in.Steps, st)
+		}
+		run("session-random", in)
 	}
 	// F. random cases over all operations
 	for i := 0; i < e.N; i++ {
